@@ -95,10 +95,15 @@ Definition gd_pop (s : gd_stack) : gd_stack :=
 (* ------------------------------------------------------------------ fragment.rs: detect_fragment_cycles
 
    `look n` is `document.fragments.get(n)` as (fragment.name, the names of all fragment spreads in its
-   selection set in document order).  The code recurses natively through fields and inline fragments
-   passing the same guard and the same `seen` set and propagating every error, so only the sequence of
-   spreads matters to the result; gd_spreads below is that sequence.  (The native recursion through
-   fields/inline fragments is bounded by the nesting depth of the syntax, i.e. by the parser's limit.) *)
+   selection set in document order).  The code loops over `nested_fragment_spreads(selection_set)`, an
+   iterator that yields the spreads nested anywhere in fields and inline fragments in document order using
+   an explicit stack on the heap; gd_spreads below is that sequence (gd_spread_iter is the iterator itself,
+   Valid/SpreadIter.v proves that it yields gd_spreads).  The function calls itself only to follow a spread,
+   after `push`: one unit of fuel is one native activation, so the bound limit + 1 on the fuel IS the bound
+   on the native depth.  (Before its repair the function also called itself for every field and inline
+   fragment with the same guard and `seen` set, propagating every error: the same sequence of spreads and
+   the same results, but a native depth of (fragments on the path) x (nesting of each definition) — former
+   finding fragment_cycles_recursion_unguarded.) *)
 
 Fixpoint gd_spreads_sel (s : selection) : list str :=
   match s with
@@ -109,6 +114,22 @@ Fixpoint gd_spreads_sel (s : selection) : list str :=
                            match l with [] => [] | x :: r => gd_spreads_sel x ++ go r end) sels
   end.
 Definition gd_spreads (sels : list selection) : list str := flat_map gd_spreads_sel sels.
+
+(* nested_fragment_spreads, collected: `stack` is the Vec of slice iterators, its last element first; one unit
+   of fuel is one turn of the `while let` loop *)
+Fixpoint gd_spread_iter (fuel : nat) (stack : list (list selection)) : option (list str) :=
+  match fuel with
+  | O => None
+  | S f =>
+    match stack with
+    | [] => Some []                                             (* stack.last_mut() is None: the iterator ends *)
+    | [] :: st => gd_spread_iter f st                           (* selections.next() is None: stack.pop() *)
+    | (SSpread n _ :: r) :: st =>                               (* return Some(spread); the next call resumes here *)
+      match gd_spread_iter f (r :: st) with Some l => Some (n :: l) | None => None end
+    | (SInline _ _ sub :: r) :: st => gd_spread_iter f (sub :: r :: st)
+    | (SField _ _ _ _ sub :: r) :: st => gd_spread_iter f (sub :: r :: st)
+    end
+  end.
 
 Definition gd_frag_limit : N := 100.
 
